@@ -18,11 +18,15 @@ def num(w):
     if isinstance(w, str):
         f = Fraction(w)
         return f.numerator if f.denominator == 1 else f
+    if isinstance(w, float):
+        return Fraction(w)          # the real number the float denotes
     return w
 
 
 def pynum(w):
     """exact number -> what is handed to tracklib (int, or a float holding the dyadic value exactly)"""
+    if isinstance(w, float):
+        return w
     w = num(w)
     return w if isinstance(w, int) else float(w)
 
@@ -243,5 +247,5 @@ def shrink_graph(case):
     for k, (i, s, t, w, o) in enumerate(edges):
         if isinstance(w, str):
             yield dict(case, edges=edges[:k] + [[i, s, t, int(Fraction(w)), o]] + edges[k + 1:])
-        elif w > 2:
+        elif isinstance(w, int) and w > 2:
             yield dict(case, edges=edges[:k] + [[i, s, t, w // 2, o]] + edges[k + 1:])
